@@ -12,6 +12,7 @@ import (
 
 	"verifharness/fsx"
 	"verifharness/mon"
+	"verifharness/wire"
 )
 
 // C20: the client file-system layer maps entries to fids faithfully, leaking none.
@@ -20,7 +21,7 @@ func init() {
 		ID:    "C20",
 		Level: "exploration",
 		Rule: "PRNG sequences (5-40 operations) of Attach/Walk/Open/OpenDir/Create/Stat/WStat/Clunk/Remove and File Read/Write over a pool of live entries of p9p.CFileSys(spy(p9p.SFileSys(instrumented FS))); walk name lists from the path alphabet including every form the layer normalises " +
-			`(".", "", "x/..", leading "..", mixtures) and missing/partial/failing names. A spy Session records every session call; the server's fid table is read through the verif hook after every operation. ` +
+			`(".", "", "x/..", leading "..", mixtures) and missing/partial/failing names. Every fourth sequence runs over the wire (CFileSys(CSession) - ServeConn(SSession(spy))); walks from entries released earlier are mixed in. A spy Session records every session call; the server's fid table is read through the verif hook after every operation. ` +
 			"Oracle: every operation issues exactly the corresponding session call(s) on the entry's own fid (walk: the normalised names, a fresh newfid distinct from every live entry's fid); a walk the server completed is reported as success with an entry whose qid is the walked-to file's and whose fid is the one the server bound; " +
 			"after each operation the set of fids bound on the server equals the set of fids of live entries; after all entries are clunked/removed the server table is empty. non-trivial = the sequence contains a walk changed by normalisation or a partial/failed walk; distinct by op-trace hash",
 		Assumptions: []string{
@@ -31,7 +32,7 @@ func init() {
 		Shards:   shards(8, 16),
 		Timeout:  timeouts(12*time.Minute, 90*time.Minute),
 		MinEvals: 1000,
-		Required: []string{"walk:complete/normalised", "walk:complete/plain", "walk:partial", "walk:failed", "walk:rejected-locally", "op:create-ok", "op:clunk", "op:remove", "op:opendir-iterated", "final_table_checks", "table_comparisons"},
+		Required: []string{"walk:complete/normalised", "walk:complete/plain", "walk:partial", "walk:failed", "walk:rejected-locally", "op:create-ok", "op:clunk", "op:remove", "op:opendir-iterated", "final_table_checks", "table_comparisons", "wired_sequences", "walk:from-released-entry"},
 		Run:      runC20,
 	})
 }
@@ -181,7 +182,38 @@ func runC20Seq(w *mon.W, seqNo int) {
 	srv := p9p.SFileSys(fs)
 	spy := &spySess{Session: srv}
 	cfs := p9p.CFileSys(spy)
+	// every fourth sequence runs over the wire: CFileSys(CSession) -> ServeConn(SSession(spy(SFileSys)))
+	wired := seqNo%4 == 3
+	if wired {
+		var csess p9p.Session
+		var cancel context.CancelFunc
+		var cend, send *wire.End
+		for attempt := 0; attempt < 3 && csess == nil; attempt++ {
+			var sctx context.Context
+			sctx, cancel = context.WithCancel(context.Background())
+			cend, send = wire.BPipe(1 << 20)
+			go func(send *wire.End) {
+				p9p.ServeConn(sctx, send, p9p.SSession(spy))
+				send.Close()
+			}(send)
+			cs, err := p9p.CSession(sctx, cend)
+			if err != nil {
+				cancel()
+				cend.Close()
+				continue
+			}
+			csess = cs
+		}
+		if csess == nil {
+			w.Inconclusive("C20 wired sequence: handshake failed three times")
+			return
+		}
+		defer func() { cancel(); cend.Close() }()
+		cfs = p9p.CFileSys(csess)
+		w.Count("wired_sequences", 1)
+	}
 	var live []*c20ent
+	var dead []*c20ent
 	var trace []string
 	nontrivial := false
 	nextID := 0
@@ -202,6 +234,9 @@ func runC20Seq(w *mon.W, seqNo int) {
 		for i, x := range live {
 			if x == e {
 				live = append(live[:i], live[i+1:]...)
+				if len(dead) < 8 {
+					dead = append(dead, e)
+				}
 				return
 			}
 		}
@@ -267,6 +302,27 @@ func runC20Seq(w *mon.W, seqNo int) {
 			e = live[w.Rng.Intn(len(live))]
 		}
 		op := w.Rng.Intn(16)
+		if len(dead) > 0 && w.Rng.Intn(12) == 0 {
+			// a walk from an entry that was released earlier: it fails, and leaves nothing behind on the server
+			de := dead[w.Rng.Intn(len(dead))]
+			if !liveFids()[de.fid] {
+				names := [][]string{{"d"}, {}, {"d", "e"}, {"missing"}}[w.Rng.Intn(4)]
+				spy.take()
+				_, _, err := de.ent.Walk(ctx, names...)
+				spy.take()
+				trace = append(trace, fmt.Sprintf("e%d(released).Walk(%q)", de.id, names))
+				w.Eval()
+				w.Count("walk:from-released-entry", 1)
+				if err == nil {
+					bad("walk-from-released-entry-succeeded", "a walk from the released entry e%d (fid %d) succeeded", de.id, de.fid)
+					return
+				}
+				if !checkTable("a walk from a released entry") {
+					return
+				}
+				continue
+			}
+		}
 		if e == nil || op == 0 {
 			// Attach
 			spy.take()
@@ -318,6 +374,18 @@ func runC20Seq(w *mon.W, seqNo int) {
 					// sending it is allowed too, as long as nothing gets bound
 				}
 				if !checkTable("rejected Walk") {
+					return
+				}
+				continue
+			}
+			if wired && len(norm) > 16 && len(calls) == 0 {
+				// the client session refuses more than 16 names locally: fine, if nothing got bound
+				w.Count("walk:over-16-names-refused-locally", 1)
+				if err == nil {
+					bad("invalid-walk-accepted", "Walk of %d names succeeded without any session call", len(norm))
+					return
+				}
+				if !checkTable("locally refused long Walk") {
 					return
 				}
 				continue
